@@ -14,3 +14,9 @@ impl CredKind {
     /// `kind as u8` of the field-less enum CredKind { Key, Script }: 0 / 1 (implicit discriminants; R-enumcast)
     #[verifier::external_body] pub fn as_u8_(self) -> (r: u8) ensures r == (if self is Script { 1u8 } else { 0u8 }) { unimplemented!() }
 }
+impl Address {
+    /// strict stand-alone parser (header dispatch and exact lengths: Kani address harnesses); here only: it never accepts the empty string
+    #[verifier::external_body] pub fn from_bytes_impl_safe(data: &[u8]) -> (r: Result<Address, DeserializeError>) ensures r is Ok ==> data@.len() >= 1 { unimplemented!() }
+    /// lenient parser used for embedded addresses: falls back to a malformed-address carrier, so it says nothing about the length
+    #[verifier::external_body] pub fn from_bytes_impl_unsafe(data: &[u8]) -> (r: Address) { unimplemented!() }
+}
